@@ -1,10 +1,12 @@
 (* C14 — Mailbox namespace and LIST/LSUB follow the reference hierarchy model.
    Property theorems only; every proof is `exact <lemma>` and is followed by Print Assumptions.
-   d is the hierarchy delimiter (any byte); names and patterns are byte lists after modified-UTF-7 decoding. *)
+   d is the hierarchy delimiter (any byte); names and patterns are byte lists after modified-UTF-7 decoding.
+   The empty delimiter (gluon.WithDelimiter(""), flat namespace) is the model at NODELIM, a byte that occurs in no
+   name: every theorem below holds for it, and the section "flat namespace" shows that there the model is flat. *)
 From Coq Require Import List NArith Bool.
-From Gluon Require Import Model.MboxNames Model.WildcardSpec Model.MboxNamespace Model.MboxMatch.
+From Gluon Require Import Model.MboxNames Model.WildcardSpec Model.MboxNamespace Model.MboxMatch Model.MboxFlat.
 From Gluon Require Import Proofs.MboxNamesProofs Proofs.MboxMatchProofs Proofs.MboxListProofs.
-From Gluon Require Import Proofs.MboxNamespaceProofs Proofs.MboxRefineProofs Proofs.MboxRenameProofs.
+From Gluon Require Import Proofs.MboxNamespaceProofs Proofs.MboxRefineProofs Proofs.MboxRenameProofs Proofs.MboxFlatProofs.
 Import ListNotations.
 Open Scope N_scope.
 
@@ -191,6 +193,61 @@ Theorem C14_recovery_refuses : forall d st n x, mb_eqfold (canon_first d n) RECO
 Proof. exact recovery_refuses. Qed.
 Print Assumptions C14_recovery_refuses.
 
+(* ---------- flat namespace: the empty delimiter ---------- *)
+(* With no delimiter a pattern matches a name iff the wildcard match of the whole strings succeeds — "*" and "%" both
+   match any characters — with INBOX (as the whole of reference+pattern) case-insensitive. *)
+Theorem C14_flat_match_sound_complete : forall ref pat name, pat <> [] ->
+  ~ In NODELIM (ref ++ pat) -> ~ In NODELIM name ->
+  (impl_match NODELIM ref pat name = Some name <-> wmf (flat_pattern ref pat) name).
+Proof. exact flat_match_iff. Qed.
+Print Assumptions C14_flat_match_sound_complete.
+
+(* match() returns the whole name or nothing (there is no superior to stop at) *)
+Theorem C14_flat_match_whole : forall ref pat name m, pat <> [] -> ~ In NODELIM name ->
+  impl_match NODELIM ref pat name = Some m -> m = name.
+Proof. exact flat_match_whole. Qed.
+Print Assumptions C14_flat_match_whole.
+
+(* the expression the code builds for the empty delimiter ("%" as ".*") gives what the model's [^<NODELIM>]* gives *)
+Theorem C14_flat_match_code : forall ref pat name, pat <> [] -> ~ In NODELIM name ->
+  impl_match NODELIM ref pat name =
+  rmatch (negb (ends_pct pat)) NODELIM (compile_flat (list_pattern NODELIM ref pat)) name.
+Proof. exact flat_match_code. Qed.
+Print Assumptions C14_flat_match_code.
+
+Theorem C14_flat_wildcards : forall d p s, ~ In d s -> (wm d p s <-> wmf p s).
+Proof. exact wm_wmf. Qed.
+Print Assumptions C14_flat_wildcards.
+
+(* no hierarchy: no superiors, only a whole name is INBOX, no delimiter rules for new names, RENAME moves one
+   mailbox, the root of every reference is empty *)
+Theorem C14_flat_no_hierarchy : forall d n, ~ In d n ->
+  list_superiors d n = [] /\ canon_first d n = parse_mailbox n /\
+  mb_begins d n = false /\ mb_adjacent d n = false /\ mb_ends d n = false /\ trim_suffix d n = n /\
+  match_root d n = [].
+Proof.
+  exact (fun d n H => conj (flat_no_superiors d n H) (conj (flat_canon d n H)
+          (match flat_name_rules d n H with conj a (conj b (conj c e)) => conj a (conj b (conj c (conj e (flat_root d n H)))) end))).
+Qed.
+Print Assumptions C14_flat_no_hierarchy.
+
+Theorem C14_flat_rename_moves_one : forall d o names, (forall x, In x names -> ~ In d x) -> rename_order d o names = [].
+Proof. exact flat_rename_order. Qed.
+Print Assumptions C14_flat_rename_moves_one.
+
+(* LIST/LSUB in the flat namespace: exactly the offered names that match, never a \Noselect parent *)
+Theorem C14_flat_list_exact : forall st lsub ref pat m sel, NoDup (offered st lsub) -> pat <> [] ->
+  (forall n, In n (offered st lsub) -> ~ In NODELIM n) ->
+  (In (m, sel) (flat_list st lsub ref pat) <->
+   wm NODELIM (list_pattern NODELIM (parse_mailbox ref) pat) m /\ In m (offered st lsub) /\ sel = offered_selectable st lsub m).
+Proof. exact flat_listed. Qed.
+Print Assumptions C14_flat_list_exact.
+
+(* the side conditions of the namespace theorems hold at NODELIM *)
+Theorem C14_flat_side_conditions : delim_ok NODELIM /\ ~ In NODELIM INBOX /\ ~ In NODELIM RECOVERY.
+Proof. exact nodelim_ok. Qed.
+Print Assumptions C14_flat_side_conditions.
+
 (* ---------- non-vacuity ---------- *)
 (* delimiter "\" (92): pattern a\%  on  a\b\c  returns the superior a\b ; "*" crosses a line feed *)
 Example C14_match_example :
@@ -221,3 +278,13 @@ Example C14_history_example :
   /\ names_of (st_rows (fst (impl_run d ns_init [OCreate [97;47;98;47;99]; ODelete [97]; ORename [97;47;98] [120]])))
     = [INBOX; RECOVERY; [120]; [120;47;99]].
 Proof. vm_compute. repeat split; intros H; repeat (destruct H as [H|H]; try discriminate H); auto. Qed.
+
+(* flat namespace: "inbox" and "inb"+"OX" find INBOX, "%" matches like "*" across what would be a level elsewhere *)
+Example C14_flat_example :
+  impl_match NODELIM [] [105;110;98;111;120] INBOX = Some INBOX
+  /\ impl_match NODELIM [105;110;98] [79;88] INBOX = Some INBOX
+  /\ impl_match NODELIM [] [97;37] [97;47;98;47;99] = Some [97;47;98;47;99]
+  /\ flat_list ns_init false [] [105;78;98;79;120] = [(INBOX, true)]
+  /\ snd (flat_step ns_init (OCreate [97;47;98])) = ROk
+  /\ names_of (st_rows (fst (flat_step ns_init (OCreate [97;47;98])))) = [INBOX; RECOVERY; [97;47;98]].
+Proof. vm_compute. repeat split. Qed.
